@@ -292,12 +292,21 @@ class UnionMatcher(AdditiveBiMatcher):
         aq = a.block_quality()
         bq = b.block_quality()
         while a.is_active() and b.is_active() and aq + bq < minquality:
+            # A posting skipped in one sub-matcher may coincide with a posting
+            # in a later, better block of the other one, so the other side
+            # can only be credited with its overall maximum
             if aq < bq:
-                skipped += a.skip_to_quality(minquality - bq)
-                aq = a.block_quality()
+                sk = a.skip_to_quality(minquality - b.max_quality())
+                if a.is_active():
+                    aq = a.block_quality()
             else:
-                skipped += b.skip_to_quality(minquality - aq)
-                bq = b.block_quality()
+                sk = b.skip_to_quality(minquality - a.max_quality())
+                if b.is_active():
+                    bq = b.block_quality()
+            if not sk:
+                # Nothing can be skipped safely from here
+                break
+            skipped += sk
 
         return skipped
 
@@ -549,7 +558,7 @@ class IntersectionMatcher(AdditiveBiMatcher):
                 # If the block quality of A is less than B, skip A ahead until
                 # it can contribute at least the balance of the required min
                 # quality when added to B
-                sk = a.skip_to_quality(minquality - bq)
+                sk = a.skip_to_quality(minquality - b.max_quality())
                 skipped += sk
                 if not sk and a.is_active():
                     # The matcher couldn't skip ahead for some reason, so just
@@ -557,7 +566,7 @@ class IntersectionMatcher(AdditiveBiMatcher):
                     a.next()
             else:
                 # And vice-versa
-                sk = b.skip_to_quality(minquality - aq)
+                sk = b.skip_to_quality(minquality - a.max_quality())
                 skipped += sk
                 if not sk and b.is_active():
                     b.next()
@@ -798,12 +807,21 @@ class AndMaybeMatcher(AdditiveBiMatcher):
         aq = a.block_quality()
         bq = b.block_quality()
         while a.is_active() and b.is_active() and aq + bq < minquality:
+            # A posting skipped in one sub-matcher may coincide with a posting
+            # in a later, better block of the other one, so the other side
+            # can only be credited with its overall maximum
             if aq < bq:
-                skipped += a.skip_to_quality(minquality - bq)
-                aq = a.block_quality()
+                sk = a.skip_to_quality(minquality - b.max_quality())
+                if a.is_active():
+                    aq = a.block_quality()
             else:
-                skipped += b.skip_to_quality(minquality - aq)
-                bq = b.block_quality()
+                sk = b.skip_to_quality(minquality - a.max_quality())
+                if b.is_active():
+                    bq = b.block_quality()
+            if not sk:
+                # Nothing can be skipped safely from here
+                break
+            skipped += sk
 
         # Leave the optional matcher on or after the required one, as next()
         # and skip_to() do, so score() sees it when it matches the current doc
